@@ -38,7 +38,16 @@ type HIDIConfigRaw struct {
 	} `toml:"HIDI"`
 }
 
-func LoadHIDIConfig(path string) (HIDIConfig, error) {
+func LoadHIDIConfig(path string) (conf HIDIConfig, err error) {
+	defer func() {
+		if r := recover(); r != nil {
+			conf, err = HIDIConfig{}, fmt.Errorf("parsing \"%s\" failed: %v", path, r)
+		}
+	}()
+	return loadHIDIConfig(path)
+}
+
+func loadHIDIConfig(path string) (HIDIConfig, error) {
 	data, err := os.ReadFile(path)
 	if err != nil {
 		return HIDIConfig{}, fmt.Errorf("cannot read \"%s\" file: %w", path, err)
